@@ -24,10 +24,10 @@ use domain::base::iana::{Class, Opcode, OptRcode, OptionCode, Rcode, Rtype};
 use domain::base::message::Message;
 use domain::base::message_builder::{
     AdditionalBuilder, AnswerBuilder, AuthorityBuilder, HashCompressor, MessageBuilder, PushError, QuestionBuilder,
-    StaticCompressor, StreamTarget, TreeCompressor,
+    RecordSectionBuilder, StaticCompressor, StreamTarget, TreeCompressor,
 };
 use domain::base::name::{Chain, FlattenInto, Name, ParsedName, RelativeName, ToName};
-use domain::base::opt::{AllOptData, ComposeOptData, Opt, OptData};
+use domain::base::opt::{AllOptData, ComposeOptData, Opt, OptData, OptRecord};
 use domain::base::question::ComposeQuestion;
 use domain::base::rdata::{ComposeRecordData, UnknownRecordData};
 use domain::base::record::ComposeRecord;
@@ -414,7 +414,16 @@ impl<T: Top> Bld<T> {
             _ => unreachable!("push_q outside the question section"),
         }
     }
-    fn push_r(&mut self, r: impl ComposeRecord, by_ref: bool) -> Result<(), PushError> {
+    fn push_r(&mut self, r: impl ComposeRecord, by_ref: bool, via_trait: bool) -> Result<(), PushError> {
+        if via_trait {
+            // generic code that only knows "some record section"
+            return match self {
+                Bld::An(b) => push_generic(b, r, by_ref),
+                Bld::Au(b) => push_generic(b, r, by_ref),
+                Bld::Ad(b) => push_generic(b, r, by_ref),
+                _ => unreachable!("push_r outside a record section"),
+            };
+        }
         match self {
             Bld::An(b) => {
                 if by_ref {
@@ -460,6 +469,16 @@ impl<T: Top> Bld<T> {
     }
 }
 
+/// Pushes through the `RecordSectionBuilder` trait, the way code does that
+/// is generic over the record section.
+fn push_generic<T: Composer, S: RecordSectionBuilder<T>>(section: &mut S, r: impl ComposeRecord, by_ref: bool) -> Result<(), PushError> {
+    if by_ref {
+        section.push(&r)
+    } else {
+        RecordSectionBuilder::push(section, r)
+    }
+}
+
 //============ Case ============================================================
 
 #[derive(Clone, Debug, Hash, PartialEq, Eq)]
@@ -478,15 +497,32 @@ struct Quest {
     qclass: u16,
 }
 
+/// `OptBuilder::clone_from` inside an `opt()` closure: the source record and
+/// what is done to the builder after it.
+#[derive(Clone, Debug, Hash)]
+struct CloneSrc {
+    udp: u16,
+    /// the complete TTL field of the source (ext rcode, version, all flags)
+    ttl: u32,
+    options: Vec<u8>,
+    /// source via `Message::opt()` of a parsed message, else `OptRecord::from_record`
+    from_message: bool,
+    after_udp: Option<u16>,
+    after_version: Option<u8>,
+    after_dok: Option<bool>,
+    after_rcode: Option<u16>,
+    after_options: Vec<u8>,
+}
+
 #[derive(Clone, Debug, Hash)]
 enum Op {
     Header { id: u16, flags: u16 },
     Goto { dst: u8, via_from: bool },
     PushQ { q: Quest, form: u8, force: bool },
-    PushR { r: Rec, form: u8 },
+    PushR { r: Rec, form: u8, via_trait: bool },
     /// one large record so that the write position reaches a boundary
-    Pad { goal: u8, delta: i16, rtype: u16, owner: Labels, form: u8 },
-    Opt { udp: u16, version: u8, dok: bool, rcode: Option<u16>, options: Vec<u8>, typed: bool },
+    Pad { goal: u8, delta: i16, rtype: u16, owner: Labels, form: u8, via_trait: bool },
+    Opt { udp: u16, version: u8, dok: bool, rcode: Option<u16>, options: Vec<u8>, typed: bool, clone: Option<CloneSrc> },
     Rewind,
     SetLimit { kind: u8, val: u16 },
     ClearLimit,
@@ -547,7 +583,7 @@ fn gen_quest(u: &mut Unstructured, pool: &[Labels], plain: bool) -> Quest {
 
 fn gen_op(u: &mut Unstructured, pool: &[Labels], plain: bool, ops: &mut Vec<Op>) {
     match pick(u, 32) {
-        0..=9 | 27..=31 => ops.push(Op::PushR { r: gen_rec(u, pool, plain), form: pick(u, 6) as u8 }),
+        0..=9 | 27..=31 => ops.push(Op::PushR { r: gen_rec(u, pool, plain), form: pick(u, 6) as u8, via_trait: chance(u, 96) }),
         10..=12 => ops.push(Op::PushQ { q: gen_quest(u, pool, plain), form: pick(u, 5) as u8, force: chance(u, 64) }),
         13..=15 => ops.push(Op::Goto { dst: pick(u, 5) as u8, via_from: flag(u) }),
         16 => ops.push(Op::Rewind),
@@ -561,6 +597,7 @@ fn gen_op(u: &mut Unstructured, pool: &[Labels], plain: bool, ops: &mut Vec<Op>)
                 rcode: if chance(u, 100) { Some(u16_(u) & 0x0FFF) } else { None },
                 options,
                 typed: flag(u),
+                clone: if chance(u, 90) { Some(gen_clone(u)) } else { None },
             })
         }
         21 => ops.push(Op::SetLimit { kind: pick(u, 5) as u8, val: u16_(u) }),
@@ -575,6 +612,7 @@ fn gen_op(u: &mut Unstructured, pool: &[Labels], plain: bool, ops: &mut Vec<Op>)
             let base = pool[pick(u, pool.len())].clone();
             let kind = pick(u, 3);
             let form = pick(u, 6) as u8;
+            let via_trait = chance(u, 96);
             for i in 0..n {
                 let mut owner = base.clone();
                 if gn::wire_len(&owner) + 6 <= 255 {
@@ -595,7 +633,7 @@ fn gen_op(u: &mut Unstructured, pool: &[Labels], plain: bool, ops: &mut Vec<Op>)
                         (rr::MX, rd)
                     }
                 };
-                ops.push(Op::PushR { r: Rec { owner, rtype, class: 1, ttl: 300, rdata }, form });
+                ops.push(Op::PushR { r: Rec { owner, rtype, class: 1, ttl: 300, rdata }, form, via_trait });
             }
         }
         _ => {
@@ -603,6 +641,29 @@ fn gen_op(u: &mut Unstructured, pool: &[Labels], plain: bool, ops: &mut Vec<Op>)
             let qs = (0..nq).map(|_| gen_quest(u, pool, plain)).collect();
             ops.push(Op::Start { error: flag(u), id: u16_(u), flags: u16_(u), rcode: byte(u) & 0xF, qs })
         }
+    }
+}
+
+fn gen_clone(u: &mut Unstructured) -> CloneSrc {
+    let ttl = match pick(u, 6) {
+        0 => [0u32, 0x8000, 0x4000, 0xC000, 0x0001, 0x7FFF, 0xFFFF, 0x0100_4000, 0xFF00_0000, 0x00FF_0000][pick(u, 10)],
+        1 => (u16_(u) as u32) & 0x7FFF,
+        2 => 1u32 << pick(u, 32),
+        _ => u32_(u),
+    };
+    let options = if chance(u, 64) { vec![] } else { grd::rdata(u, rr::OPT, &[], grd::Opts::default()) };
+    let from_message = flag(u);
+    let modify = chance(u, 100);
+    CloneSrc {
+        udp: if flag(u) { [0u16, 512, 1232, 4096, 65535][pick(u, 5)] } else { u16_(u) },
+        ttl,
+        options,
+        from_message,
+        after_udp: if modify && flag(u) { Some(u16_(u)) } else { None },
+        after_version: if modify && flag(u) { Some(byte(u)) } else { None },
+        after_dok: if modify && flag(u) { Some(flag(u)) } else { None },
+        after_rcode: if modify && chance(u, 64) { Some(u16_(u) & 0x0FFF) } else { None },
+        after_options: if modify && flag(u) { grd::rdata(u, rr::OPT, &[], grd::Opts::default()) } else { vec![] },
     }
 }
 
@@ -616,7 +677,7 @@ fn gen_pad(u: &mut Unstructured, pool: &[Labels], goal: Option<u8>) -> Op {
     };
     let rtype = [rr::NULL, rr::TXT, 65280u16][pick(u, 3)];
     let owner = if flag(u) { vec![] } else { pool[pick(u, pool.len())].clone() };
-    Op::Pad { goal, delta, rtype, owner, form: pick(u, 3) as u8 }
+    Op::Pad { goal, delta, rtype, owner, form: pick(u, 3) as u8, via_trait: chance(u, 64) }
 }
 
 fn decode(data: &[u8], boundary: bool) -> Case {
@@ -641,7 +702,7 @@ fn decode(data: &[u8], boundary: bool) -> Case {
         let n = 2 + pick(u, 10);
         for _ in 0..n {
             if chance(u, 200) {
-                ops.push(Op::PushR { r: gen_rec(u, &pool, plain), form: pick(u, 6) as u8 });
+                ops.push(Op::PushR { r: gen_rec(u, &pool, plain), form: pick(u, 6) as u8, via_trait: chance(u, 96) });
             } else {
                 gen_op(u, &pool, plain, &mut ops);
             }
@@ -669,9 +730,15 @@ fn show_case(c: &Case) -> String {
             Op::Header { id, flags } => s.push_str(&format!("hdr({id:#x},{flags:#x})")),
             Op::Goto { dst, via_from } => s.push_str(&format!("goto{}({})", if *via_from { "-from" } else { "" }, ["builder", "question", "answer", "authority", "additional"][*dst as usize])),
             Op::PushQ { q, .. } => s.push_str(&format!("q({} {})", gn::show(&q.name), rr::mnemonic(q.qtype))),
-            Op::PushR { r, form } => s.push_str(&format!("rr({} {} len={} f{form})", gn::show(&r.owner), rr::mnemonic(r.rtype), r.rdata.len())),
+            Op::PushR { r, form, via_trait } => s.push_str(&format!("rr({} {} len={} f{form}{})", gn::show(&r.owner), rr::mnemonic(r.rtype), r.rdata.len(), if *via_trait { " trait" } else { "" })),
             Op::Pad { goal, delta, .. } => s.push_str(&format!("pad(goal{goal}{delta:+})")),
-            Op::Opt { options, rcode, .. } => s.push_str(&format!("opt(len={} rcode={rcode:?})", options.len())),
+            Op::Opt { options, rcode, clone, .. } => {
+                s.push_str(&format!("opt(len={} rcode={rcode:?}", options.len()));
+                if let Some(c) = clone {
+                    s.push_str(&format!(" clone_from(udp={} ttl={:#x} len={}{})", c.udp, c.ttl, c.options.len(), if c.after_udp.is_some() || c.after_version.is_some() || c.after_dok.is_some() || c.after_rcode.is_some() || !c.after_options.is_empty() { " then-modified" } else { "" }));
+                }
+                s.push(')');
+            }
             Op::Rewind => s.push_str("rewind"),
             Op::SetLimit { kind, val } => s.push_str(&format!("limit(k{kind},{val})")),
             Op::ClearLimit => s.push_str("nolimit"),
@@ -942,6 +1009,22 @@ struct Runner<T: Top> {
     comp: bool,
 }
 
+/// Splits well-formed OPT RDATA into (code, data) pairs.
+fn split_options(options: &[u8]) -> Vec<(u16, &[u8])> {
+    let mut raw = vec![];
+    let mut pos = 0;
+    while pos + 4 <= options.len() {
+        let code = u16::from_be_bytes([options[pos], options[pos + 1]]);
+        let len = u16::from_be_bytes([options[pos + 2], options[pos + 3]]) as usize;
+        if pos + 4 + len > options.len() {
+            break;
+        }
+        raw.push((code, &options[pos + 4..pos + 4 + len]));
+        pos += 4 + len;
+    }
+    raw
+}
+
 /// What a pad record looks like for a wanted RDLENGTH.
 fn pad_rdata(rtype: u16, len: usize) -> Vec<u8> {
     if rtype != rr::TXT {
@@ -1196,7 +1279,7 @@ impl<T: Top> Runner<T> {
         }
     }
 
-    fn push_record(&mut self, r: &Rec, form: u8, what: &'static str) -> Result<bool, Violation> {
+    fn push_record(&mut self, r: &Rec, form: u8, via_trait: bool, what: &'static str) -> Result<bool, Violation> {
         if self.bld().sec() < 2 {
             self.goto(2, false);
         }
@@ -1241,8 +1324,12 @@ impl<T: Top> Runner<T> {
                 }
             },
         };
-        let ok = self.guarded_push(what, false, |b| b.push_r(any, by_ref))?;
+        let ok = self.guarded_push(what, false, |b| b.push_r(any, by_ref, via_trait))?;
         self.after_push(size, cur, ok);
+        if via_trait {
+            self.st.class("push-via-RecordSectionBuilder-trait");
+            self.st.class(["push-via-trait:answer", "push-via-trait:authority", "push-via-trait:additional"][sec as usize - 1]);
+        }
         if ok {
             self.m.rs.push((sec, r.clone()));
         }
@@ -1284,22 +1371,15 @@ impl<T: Top> Runner<T> {
         Ok(())
     }
 
-    fn push_opt(&mut self, udp: u16, version: u8, dok: bool, rcode: Option<u16>, options: &[u8], typed: bool) -> Result<(), Violation> {
+    fn push_opt(&mut self, udp: u16, version: u8, dok: bool, rcode: Option<u16>, options: &[u8], typed: bool, clone: Option<&CloneSrc>) -> Result<(), Violation> {
         if self.bld().sec() != 4 {
             self.goto(4, false);
         }
-        let size = 11 + options.len();
+        // upper bound of what is appended at any time while the record is built
+        let size = 11 + options.len() + clone.map(|c| c.options.len() + c.after_options.len()).unwrap_or(0);
         let cur = self.octets().len();
         self.before_push(size);
-        // split the options
-        let mut raw: Vec<(u16, &[u8])> = vec![];
-        let mut pos = 0;
-        while pos + 4 <= options.len() {
-            let code = u16::from_be_bytes([options[pos], options[pos + 1]]);
-            let len = u16::from_be_bytes([options[pos + 2], options[pos + 3]]) as usize;
-            raw.push((code, &options[pos + 4..pos + 4 + len]));
-            pos += 4 + len;
-        }
+        let raw = split_options(options);
         // typed options, if the library parses them and reproduces them
         let mut use_typed = false;
         if typed {
@@ -1325,8 +1405,35 @@ impl<T: Top> Runner<T> {
                 self.st.class("opt-options-not-reproduced-by-codec(pushed-raw)");
             }
         }
+        // the source of clone_from: an OptRecord as a caller gets it, either
+        // from a parsed message or from a record
+        let src_msg: Option<Message<Vec<u8>>> = match clone {
+            Some(c) if c.from_message => {
+                let mut a = wire::Asm::new(0x1234, 0x8180);
+                a.record(3, &[], rr::OPT, c.udp, c.ttl, &c.options);
+                Message::from_octets(a.buf).ok()
+            }
+            _ => None,
+        };
+        let src_a: Option<OptRecord<&[u8]>> = src_msg.as_ref().and_then(|m| m.opt());
+        let src_b: Option<OptRecord<Vec<u8>>> = match clone {
+            Some(c) if !c.from_message => Opt::from_octets(c.options.clone())
+                .ok()
+                .map(|opt| OptRecord::from_record(Record::new(gn::to_name(&vec![]), Class::from_int(c.udp), Ttl::from_secs(c.ttl), opt))),
+            _ => None,
+        };
+        let clone = match clone {
+            Some(c) if src_a.is_some() || src_b.is_some() => Some(c),
+            Some(_) => {
+                self.st.class("opt-clone_from-source-not-parsable-by-library(skipped)");
+                None
+            }
+            None => None,
+        };
+        let after_raw = clone.map(|c| split_options(&c.after_options)).unwrap_or_default();
+        let header_may_change = rcode.is_some() || clone.map(|c| c.after_rcode.is_some()).unwrap_or(false);
         let opts_vec = options.to_vec();
-        let ok = self.guarded_push("opt", rcode.is_some(), |b| match b {
+        let ok = self.guarded_push("opt", header_may_change, |b| match b {
             Bld::Ad(ad) => ad.opt(|o| {
                 o.set_udp_payload_size(udp);
                 if version != 0 {
@@ -1349,18 +1456,82 @@ impl<T: Top> Runner<T> {
                         o.push_raw_option(OptionCode::from_int(*code), data.len() as u16, |t| t.append_slice(data))?;
                     }
                 }
+                if let Some(c) = clone {
+                    // replaces everything done so far to the record
+                    if let Some(src) = &src_a {
+                        o.clone_from(src)?;
+                    } else if let Some(src) = &src_b {
+                        o.clone_from(src)?;
+                    }
+                    if let Some(v) = c.after_udp {
+                        o.set_udp_payload_size(v);
+                    }
+                    if let Some(v) = c.after_version {
+                        o.set_version(v);
+                    }
+                    if let Some(v) = c.after_dok {
+                        o.set_dnssec_ok(v);
+                    }
+                    if let Some(rc) = c.after_rcode {
+                        o.set_rcode(OptRcode::masked_from_int(rc));
+                    }
+                    for (code, data) in &after_raw {
+                        o.push_raw_option(OptionCode::from_int(*code), data.len() as u16, |t| t.append_slice(data))?;
+                    }
+                }
                 Ok(())
             }),
             _ => unreachable!("opt outside the additional section"),
         })?;
         self.after_push(size, cur, ok);
+        if let Some(c) = clone {
+            self.st.class("opt-clone_from");
+            if c.ttl & 0x7FFF != 0 {
+                self.st.class("opt-clone_from-source-flags-beyond-DO");
+            }
+        }
         if ok {
+            let mut class = udp;
             let mut ttl = (version as u32) << 16 | if dok { 0x8000 } else { 0 };
+            let mut rdata = options.to_vec();
             if let Some(rc) = rcode {
                 ttl |= ((rc >> 4) as u32) << 24;
                 self.m.flags = (self.m.flags & !0xF) | (rc & 0xF);
             }
-            self.m.rs.push((3, Rec { owner: vec![], rtype: rr::OPT, class: udp, ttl, rdata: options.to_vec() }));
+            if let Some(c) = clone {
+                // the record is now the source's, whatever was set before
+                // (the RCODE bits in the message header are not part of it)
+                class = c.udp;
+                ttl = c.ttl;
+                rdata = c.options.clone();
+                let mut modified = false;
+                if let Some(v) = c.after_udp {
+                    class = v;
+                    modified = true;
+                }
+                if let Some(v) = c.after_version {
+                    ttl = (ttl & !0x00FF_0000) | (v as u32) << 16;
+                    modified = true;
+                }
+                if let Some(v) = c.after_dok {
+                    ttl = if v { ttl | 0x8000 } else { ttl & !0x8000 };
+                    modified = true;
+                }
+                if let Some(rc) = c.after_rcode {
+                    ttl = (ttl & 0x00FF_FFFF) | ((rc >> 4) as u32) << 24;
+                    self.m.flags = (self.m.flags & !0xF) | (rc & 0xF);
+                    modified = true;
+                }
+                if !c.after_options.is_empty() {
+                    rdata.extend_from_slice(&c.after_options);
+                    modified = true;
+                }
+                self.st.class("opt-clone_from-ok");
+                if modified {
+                    self.st.class("opt-clone_from-then-modified");
+                }
+            }
+            self.m.rs.push((3, Rec { owner: vec![], rtype: rr::OPT, class, ttl, rdata }));
             self.st.class(if use_typed { "opt-typed-options" } else { "opt-raw-options" });
             self.st.class("opt");
         } else {
@@ -1449,11 +1620,11 @@ impl<T: Top> Runner<T> {
                 self.push_question(q, *form, *force)?;
                 self.check_light("question")
             }
-            Op::PushR { r, form } => {
-                self.push_record(r, *form, "record")?;
+            Op::PushR { r, form, via_trait } => {
+                self.push_record(r, *form, *via_trait, "record")?;
                 self.check_light("record")
             }
-            Op::Pad { goal, delta, rtype, owner, form } => {
+            Op::Pad { goal, delta, rtype, owner, form, via_trait } => {
                 if self.bld().sec() < 2 {
                     self.goto(2, false);
                 }
@@ -1475,13 +1646,13 @@ impl<T: Top> Runner<T> {
                     len = [0i64, 1, 255, 256, 1000][(delta.unsigned_abs() % 5) as usize];
                 }
                 let r = Rec { owner: owner.clone(), rtype: *rtype, class: 1, ttl: 0, rdata: pad_rdata(*rtype, len as usize) };
-                if self.push_record(&r, *form, "pad")? {
+                if self.push_record(&r, *form, *via_trait, "pad")? {
                     self.st.class("pad-ok");
                 }
                 self.check_light("pad")
             }
-            Op::Opt { udp, version, dok, rcode, options, typed } => {
-                self.push_opt(*udp, *version, *dok, *rcode, options, *typed)?;
+            Op::Opt { udp, version, dok, rcode, options, typed, clone } => {
+                self.push_opt(*udp, *version, *dok, *rcode, options, *typed, clone.as_ref())?;
                 self.check_light("opt")
             }
             Op::Rewind => {
@@ -1689,6 +1860,12 @@ fn health(c: &BTreeMap<String, u64>, _thorough: bool) -> Result<(), String> {
         "start_error",
         "into_message",
         "twin-run",
+        "push-via-trait:answer",
+        "push-via-trait:authority",
+        "push-via-trait:additional",
+        "opt-clone_from-ok",
+        "opt-clone_from-source-flags-beyond-DO",
+        "opt-clone_from-then-modified",
     ] {
         if get(k) < 10 {
             return Err(format!("class {k} starved ({})", get(k)));
